@@ -65,12 +65,12 @@ func c14QuicScenario(c *choice.Ctx, rep *report.R, depth int) {
 	answered := map[skey]bool{}
 	serial := byte(0)
 	sent := map[byte]string{}
-	connsAtStart := map[int]int{} // exchange -> number of connections that existed when it started
-	envFaulted := false           // a dial fault or a stalled stream was scripted in this execution
-	killedByEnv := map[int]bool{} // connections the environment killed
-	stragglers := map[skey]bool{} // streams of killed connections that have not been told yet
+	connsAtStart := map[int]int{}  // exchange -> number of connections that existed when it started
+	envFaulted := false            // a dial fault or a stalled stream was scripted in this execution
+	killedByEnv := map[int]bool{}  // connections the environment killed
+	stragglers := map[skey]bool{}  // streams of killed connections that have not been told yet
 	reflected := map[string]bool{} // questions whose query the server sent back instead of a response
-	otherFault := false           // a fault other than the death of a whole connection happened in this execution
+	otherFault := false            // a fault other than the death of a whole connection happened in this execution
 	getConns := func() []*env.FakeQuicConn {
 		cmu.Lock()
 		defer cmu.Unlock()
